@@ -764,3 +764,20 @@ fn index_static(header: &Header) -> Option<(usize, bool)> {
         },
     }
 }
+
+// ===== verification hooks (add-only, feature-gated) =====
+
+#[cfg(feature = "hyperium_h2_verif")]
+impl Table {
+    /// (entries newest first as (name, value), size, max_size)
+    pub(crate) fn verif_stats(&self) -> (Vec<(Vec<u8>, Vec<u8>)>, usize, usize) {
+        (
+            self.slots
+                .iter()
+                .map(|s| (s.header.name().as_slice().to_vec(), s.header.value_slice().to_vec()))
+                .collect(),
+            self.size,
+            self.max_size,
+        )
+    }
+}
